@@ -121,7 +121,7 @@ func C06CrossConv() {
 	var err error
 	stderr := vrt.CaptureStderr(func() { texts, err = frontHalf("xconv") })
 	vrt.SlotText("xconv", "S1")
-	vrt.AssertMsg("well-formed-file-accepted", err == nil && len(texts) == 5, stderr)
+	vrt.AssertMsg("well-formed-file-accepted", err == nil && len(texts) == 6, stderr)
 	if err != nil {
 		return
 	}
